@@ -367,8 +367,13 @@ def _c12_one(a):
         for lk, rk in (("klp", "klp"), ("fbk", "fbk"), ("fcp", "fcp")):
             if H[lk] != h[rk]:
                 out.append(("load/header/" + lk, "library %d file %d" % (H[lk], h[rk])))
+        D2 = None
         if os.path.exists(resave):
-            D2 = c3dref.decode(open(resave, "rb").read())
+            try:
+                D2 = c3dref.decode(open(resave, "rb").read())
+            except (c3dref.FormatError, struct.error, IndexError) as e:
+                out.append(("resave/undecodable", "the re-saved file cannot be decoded: %s" % e))
+        if D2 is not None:
             h2 = D2["hdr"]
             for k in ("npts", "nmeas", "first", "last", "gap", "sub", "rate_bits", "klp", "fbk", "fcp", "nev", "etimes", "edisp_words", "elab"):
                 if h[k] != h2[k]:
@@ -388,7 +393,7 @@ def _c12_one(a):
                 out.append(("resave/point_floats", "point data words differ"))
             if [[list(s) for s in f[1]] for f in D["frames"]] != [[list(s) for s in f[1]] for f in D2["frames"]]:
                 out.append(("resave/analog_floats", "analog data words differ"))
-        else:
+        elif not os.path.exists(resave):
             out.append(("resave/missing", "no re-saved file"))
         return i, out
     except Exception as e:
@@ -452,7 +457,10 @@ def run_c12_on(exe, wd, tag, viols, stats):
             j = -1 if not p else next((x for x in range(min(len(want), len(p[0]["raw"]))) if want[x] != p[0]["raw"][x]), -1)
             viols.append(dict(prop="C12", key="api/bytes_written/" + ("int" if k < 4 else "float"), detail="case %d: bytes of the saved parameter differ from the little-endian encoding of the values handed to set() at byte %d [%s]" % (k, j, tag), case=k, files=[f]))
         if k == 4:
-            words = [w for fr in D["frames"][:4] for pt in fr[0] for w in pt]
+            words = []
+            for f, fr in enumerate(D["frames"][:4]):
+                for pt in fr[0]:
+                    words += [pt[(k - f) % 4] for k in range(4)]          # frame f stores the patterns rotated by f components
             if struct.pack("<%dI" % len(words), *words) != want:
                 viols.append(dict(prop="C12", key="api/bytes_written/point_floats", detail="point data words differ from the patterns handed over [%s]" % tag, case=k, files=[f]))
         stats["api_files_decoded"] += 1
